@@ -195,6 +195,84 @@ def Or(a, b):
     return _mk('or', 0, (a, b))
 
 
+def implied(c, ctx, depth=0, memo=None):
+    """True / False if Bool term c is decided by the conjunction summary ctx = (lits, bounds); None if unknown"""
+    if c is True or c is False: return c
+    if memo is not None:
+        r = memo.get(c.id, 0)
+        if r != 0: return r
+        r = _implied(c, ctx, depth, memo)
+        memo[c.id] = r
+        return r
+    return _implied(c, ctx, depth, {})
+
+
+def _implied(c, ctx, depth, memo):
+    lits, bd = ctx
+    if c.id in lits: return True
+    if c.op == 'not':
+        r = implied(c.args[0], ctx, depth + 1, memo)
+        return None if r is None else (not r)
+    if _neg_in(c, lits): return False
+    b = _bound_of(c)
+    if b is not None:
+        x, lo, hi, ex = b
+        o = bd.get(x.id)
+        if o is not None:
+            clo, chi, cex = o
+            if ex is None:
+                if clo >= lo and chi <= hi: return True
+                if chi < lo or clo > hi: return False
+            else:
+                if ex in cex or ex < clo or ex > chi: return True
+                if clo == chi == ex: return False
+        return None
+    if depth > 40 or len(memo) > 1500: return None
+    if c.op == 'and' and c.w == 0:
+        a = implied(c.args[0], ctx, depth + 1, memo)
+        if a is False: return False
+        b2 = implied(c.args[1], ctx, depth + 1, memo)
+        if b2 is False: return False
+        if a is True and b2 is True: return True
+        return None
+    if c.op == 'or' and c.w == 0:
+        a = implied(c.args[0], ctx, depth + 1, memo)
+        if a is True: return True
+        b2 = implied(c.args[1], ctx, depth + 1, memo)
+        if b2 is True: return True
+        if a is False and b2 is False: return False
+        return None
+    return None
+
+
+def restrict(t, g, budget=120):
+    """simplify value t under the assumption that guard g holds: ite conditions decided by g's literal set / variable
+    bounds are resolved (memory words are ite-chains over window tests of earlier stores)"""
+    if not isinstance(t, Term) or not isinstance(g, Term): return t
+    ctx = _summary(g)
+    if ctx is None: return t
+    memo = {}
+    imemo = {}
+    cnt = [0]
+
+    def go(x):
+        if not isinstance(x, Term) or x.op != 'ite': return x
+        r = memo.get(x.id)
+        if r is not None: return r[0]
+        cnt[0] += 1
+        if cnt[0] > budget: return x
+        c, a, b = x.args
+        d = implied(c, ctx, 0, imemo)
+        if d is True: r = go(a)
+        elif d is False: r = go(b)
+        else:
+            a2 = go(a); b2 = go(b)
+            r = x if (a2 is a and b2 is b) else Ite(c, a2, b2, x.w)
+        memo[x.id] = (r,)
+        return r
+    return go(t)
+
+
 def AndL(xs):
     r = True
     for x in xs:
